@@ -257,7 +257,7 @@ var strides = []uint32{1, 1, 0x10000, 0x01000000, 0x7fffffff}
 // exhaustiveCases builds the case list: (a) every single message length that yields 1..6 segments,
 // (b) every ordered tuple of 2 and 3 segment counts (each 1..6) with at most maxTotal segments in flight,
 // in three length variants (smallest = exact multiple of the payload, largest, middle) plus one mixed variant.
-func exhaustiveCases(P, maxTotal int, allSingles bool) []exCase {
+func exhaustiveCases(P, maxTotal int, allSingles bool, topVariants []int) []exCase {
 	var cs []exCase
 	if allSingles {
 		for l := 0; l <= 6*P-1; l++ {
@@ -276,7 +276,14 @@ func exhaustiveCases(P, maxTotal int, allSingles bool) []exCase {
 	k := 0
 	for m := 2; m <= 3; m++ {
 		for _, comp := range compositions(m, maxTotal, 6) {
+			sum := 0
+			for _, n := range comp {
+				sum += n
+			}
 			for v := 0; v < 4; v++ {
+				if sum == maxTotal && !containsInt(topVariants, v) {
+					continue // the most expensive layer (T segments in flight) runs the listed length variants only
+				}
 				lens := make([]int, m)
 				for i, n := range comp {
 					vv := v
@@ -291,6 +298,15 @@ func exhaustiveCases(P, maxTotal int, allSingles bool) []exCase {
 		}
 	}
 	return cs
+}
+
+func containsInt(xs []int, x int) bool {
+	for _, y := range xs {
+		if y == x {
+			return true
+		}
+	}
+	return false
 }
 
 // runExhaustive enumerates EVERY permutation of the union of all segments of the case's messages, feeds each one
@@ -401,7 +417,7 @@ func TestC14ExhaustiveSmall(t *testing.T) {
 	const P = 4
 	restore := vh.SegmentSetMaxPayloadSize(P) // once for the whole process, before any case runs
 	defer restore()
-	cases := exhaustiveCases(P, e.Pick(9, 10), true)
+	cases := exhaustiveCases(P, e.Pick(9, 10), true, []int{0, 1, 2, 3})
 	meta := vrun.Meta{Property: "C14", Workload: "TestC14ExhaustiveSmall", Total: len(cases), Exhaustive: true,
 		Rule:        "payload size 4 bytes, T=" + fmt.Sprint(e.Pick(9, 10)) + ". " + ruleExhaustive,
 		Assumptions: assumeCommon}
@@ -416,9 +432,9 @@ func TestC14ExhaustiveSmall(t *testing.T) {
 func TestC14ExhaustiveReal(t *testing.T) {
 	e := vrun.LoadEnv()
 	P := vh.SegmentMaxPayloadSize()
-	cases := exhaustiveCases(P, e.Pick(8, 9), false)
+	cases := exhaustiveCases(P, e.Pick(8, 9), false, []int{0, 3})
 	meta := vrun.Meta{Property: "C14", Workload: "TestC14ExhaustiveReal", Total: len(cases), Exhaustive: true,
-		Rule:        "the library's real payload size (1188 bytes), T=" + fmt.Sprint(e.Pick(8, 9)) + "; single messages: smallest, smallest+1, middle, largest length for each of 1..6 segments. " + ruleExhaustive,
+		Rule:        "the library's real payload size (1188 bytes), T=" + fmt.Sprint(e.Pick(8, 9)) + " (tuples with exactly T segments in flight: variants exact-multiple and mixed only); single messages: smallest, smallest+1, middle, largest length for each of 1..6 segments. " + ruleExhaustive,
 		Assumptions: assumeCommon}
 	vrun.Loop(t, meta, exhaustivePar, func(c *vrun.Case) vrun.Result {
 		if P != realPayload {
@@ -434,7 +450,7 @@ func TestC14ExhaustiveReal(t *testing.T) {
 
 func TestC14Sampled(t *testing.T) {
 	e := vrun.LoadEnv()
-	total := e.Pick(1000, 20000)
+	total := e.Pick(1000, 10000)
 	payloadSizes := []int{1, 2, 3, 4, 5, 7, 8, 16, 64, 255, realPayload}
 	meta := vrun.Meta{Property: "C14", Workload: "TestC14Sampled", Total: total,
 		Rule: "Case = payload size from {1,2,3,4,5,7,8,16,64,255,1188(real)} (cases run sequentially because the override is a package variable), 1..5 messages with lengths from the classes " +
